@@ -22,6 +22,7 @@ def default_params(tier):
     p["max_prefix"] = 2
     p["chain_max"] = 700 if tier == "quick" else 2000
     p["chain_every"] = 16 if tier == "quick" else 8
+    p["includes"] = 5   # 1/5 of the elements / component tags sit in a partial pulled in with {% include %}
     return p
 
 
